@@ -1,5 +1,6 @@
 //! Correspondence harness: runs the real crate (hooks on) on generated inputs
 //! and prints JSON that the ./check driver turns into Coq case files.
+mod fy;
 mod invhash;
 mod tracker;
 mod util;
@@ -15,6 +16,10 @@ fn main() {
         "invhash-vectors" => invhash::vectors(rest),
         "invhash-search" => invhash::search(rest),
         "invhash-replay" => invhash::replay(rest),
+        "fy-cases" => fy::cases(rest),
+        "fy-pick-cases" => fy::pick_cases(rest),
+        "fy-search" => fy::search(rest),
+        "fy-replay" => fy::replay(rest),
         "tracker-cases" => tracker::cases(rest),
         "tracker-search" => tracker::search(rest),
         "tracker-replay" => tracker::replay(rest),
